@@ -157,7 +157,29 @@ def c_coin_joint(ctx, args):
             'expected': '%d distinct outcome vectors (log2prob = -%d)' % (2 ** k, k), 'tags': ['coin', 'joint']}
 
 
-CHECKS = {'coin_joint': c_coin_joint, 'coin_fair': c_coin_fair, 'measure': c_measure, 'measure_forms': c_measure_forms}
+def c_coin_positions(ctx, args):
+    """EVERY undetermined outcome of a long list is a fresh coin, however many came before it in the same call: N single-site X (random signs) on a computational-basis state
+    of N > 64 qubits are N independent fair coins -- over 48 calls every position must show both outcomes (a fair coin misses with probability N * 2^-47), log2prob = -N"""
+    N, seed = args
+    rng = __import__('random').Random(seed)
+    NP.seed_numba(seed)
+    t = [[[[1 if j == 2 * q + 1 else 0 for j in range(2 * N)], rng.choice([0, 2])] for q in range(N)] + [[[1 if j == 2 * q else 0 for j in range(2 * N)], 0] for q in range(N)], 0]
+    obs = [[[1 if j == 2 * q else 0 for j in range(2 * N)], rng.choice([0, 2])] for q in range(N)]
+    seen = [set() for _ in range(N)]
+    for _ in range(48):
+        s = NP.STATE(t)
+        out, lp = s.measure(NP.PL(obs))
+        if float(lp) != -float(N):
+            return {'kind': 'oracle', 'where': 'np:log2prob of %d undetermined outcomes' % N, 'observed': float(lp), 'expected': -N, 'tags': ['coin', 'positions']}
+        for k, v in enumerate(np.atleast_1d(out)):
+            seen[k].add(int(v))
+    stuck = [k for k in range(N) if len(seen[k]) < 2]
+    if stuck:
+        return {'kind': 'oracle', 'where': 'np:positions of a long measurement list whose undetermined outcome never varied in 48 calls', 'observed': stuck, 'expected': 'both outcomes at every position', 'tags': ['coin', 'positions']}
+    return None
+
+
+CHECKS = {'coin_positions': c_coin_positions, 'coin_joint': c_coin_joint, 'coin_fair': c_coin_fair, 'measure': c_measure, 'measure_forms': c_measure_forms}
 
 
 def all_tableaux_1q():
@@ -231,6 +253,9 @@ def run(ctx):
         q = rng.randrange(n)
         o = rng.choice([[[1 if j == 2 * q + 1 else 0 for j in range(2 * n)], 0], [[1 if j == 2 * q else 0 for j in range(2 * n)], 0], gen.rpauli(rng, n, herm=True, nonzero=True)])
         do(ctx, 'coin_fair', [t, o, rng.randrange(10 ** 6)], nontrivial=('cf', it) if t[1] > 0 else None)
+    if not getattr(ctx, 'is_worker', False):
+        for N in (70, 130):
+            do(ctx, 'coin_positions', [N, rng.randrange(10 ** 6)], nontrivial=('cp', N))
     # ... and jointly: several undetermined observables in one call (single-site Z's / X's on product-like states, random commuting lists on random states)
     for it in range(int(40 * B)):
         n = rng.randint(2, 5)
